@@ -79,6 +79,7 @@ class World:
         scen['varlen'] = kind == 'bytes' and rng.random() < 0.4
         # an identification exchange on every (re)connect: the reconnecting thread talks to the device itself
         scen['ident'] = rng.random() < 0.3 and not scen['varlen']
+        scen['raising_cb'] = rng.random() < 0.4
         if fault in ('disconnect', 'disconnect-refuse') and rng.random() < 0.5:
             # callers that keep calling while the communicator is disconnected and being reconnected (which takes a while)
             scen['pause'] = rng.choice([0.7, 1.6, 3.2])
@@ -215,6 +216,7 @@ class World:
             dev['attempts'].append(s.now)
             me = s.me()
             dev['attempt_by'].append('poller' if me is not None and '__pollThread' in me.name else 'caller')
+            dev.setdefault('attempt_thread', []).append(me.name if me is not None else '?')
             if dev['refuse_left'] > 0:
                 dev['refuse_left'] -= 1
                 if scen.get('refuse_takes'):
@@ -266,6 +268,12 @@ class World:
             info['io'] = io
             io.addCallback('is_connected', lambda v, *a: (updates.append((s.now, bool(v))), timeline.append(('upd', bool(v)))))
             io.registerReconnectCallback('cb1', lambda: cbcalls.append((s.now, 'cb1')) or True)
+            if scen.get('raising_cb'):
+                # a callback registered between the two fails: it is dropped, the others run all the same
+                def cbx():
+                    cbcalls.append((s.now, 'cbx'))
+                    raise ValueError('reconnect callback fails')
+                io.registerReconnectCallback('cbx', cbx)
             io.registerReconnectCallback('cb2', lambda: cbcalls.append((s.now, 'cb2')) or True)
             tokn = [0]
 
@@ -517,9 +525,17 @@ class World:
                         r.violation('C16/reconnect-attempts-too-frequent/by-pollers', f'reconnect interval 3 s, three attempts of the poller within one interval: {[round(a - dev["dropped"], 3) for a in mine]}', case)
                         return
                     continue
-                if any(1e-3 < b - a < 3 - 0.05 for a, b in zip(mine, mine[1:])):
-                    # not the listed check-then-store race (there both callers pass the time check in the same instant): an
-                    # attempt started some time after another one, within the interval
+                # the listed check-then-store race: two callers pass the time check in the same instant (the second attempt may
+                # then start later: it waits for the access lock the first one holds).  An attempt of a call that was ISSUED some
+                # time after another attempt had started is another mechanism
+                names = [n_ for a_, w_, n_ in zip(dev['attempts'], dev['attempt_by'], dev.get('attempt_thread', [])) if a_ > dev['dropped'] and w_ == src]
+
+                def issued(a_, n_):
+                    # when did the call that made this attempt begin?
+                    ts = [v['t_call'] for k, v in results.items() if n_ == f'caller{k[0]}' and v['t_call'] <= a_ + 1e-9 and v.get('t_ret', 1e99) >= a_ - 1e-9]
+                    return max(ts) if ts else a_
+                late = [(a, b) for (a, b), nb in zip(zip(mine, mine[1:]), names[1:]) if b - a < 3 - 0.05 and issued(b, nb) - a > 1e-3]
+                if src == 'caller' and late:
                     r.violation(f'C16/reconnect-attempts-too-frequent/by-{src}s/some-time-after-another-attempt', f'reconnect interval 3 s, attempts by {src}s at '
                                 f'{[round(a - dev["dropped"], 3) for a in mine]}', case)
                     return
@@ -533,7 +549,7 @@ class World:
             rec_times = [c for c in dev['connected'] if c > dev['dropped']]
             if rec_times and info.get('connected_at_end'):
                 last = rec_times[-1]
-                calls = [n for t, n in cbcalls if t >= last]
+                calls = [n for t, n in cbcalls if t >= last and n != 'cbx']
                 if sorted(calls) != ['cb1', 'cb2']:
                     r.violation('C16/reconnect-callbacks', f'after the reconnect at +{last - dev["dropped"]:.2f} s the callbacks ran {calls}', case)
                     return
